@@ -485,6 +485,8 @@ def run(prop, tier):
                             {"kind": "history", "prop": prop, "name": j["name"], "history": j.get("history"),
                              "finding": f}, sig)
                 break
+    if prop == "C04":
+        output_modes(V, pop, tier)
     for k, v in totals.items():
         V.extra["judged_" + k] = v
     V.extra["unjudged_reasons"] = whys
@@ -495,6 +497,51 @@ def run(prop, tier):
     floors = {"C01": {"judged_rows": 1000}, "C02": {"judged_loss_sales": 500},
               "C03": {"judged_c03_prefixes": 500}, "C04": {"judged_rejected_by_model": 50}}
     return V.finish(floor_eval=100, floor_nontrivial=10, floors=floors[prop])
+
+
+def output_modes(V, pop, tier):
+    """C04(c): a rejection message reaches the user in every output mode: text on stdout, --csv-output-dir, and the
+    text writer over a string buffer that the web UI uses."""
+    common.build(bins=True)
+    k = {"quick": 40, "thorough": 400}[tier]
+    sample = [x for x in pop if "reason_family" in x[2].get("features", [])][:k]
+    wd = common.workdir("c04modes")
+    try:
+        lib = common.run_harness("app", [history_to_case(cid, h, want=("model", "text")) for cid, name, h in sample], tag="c04lib")
+        for cid, name, h in sample:
+            r = lib.get(cid, {})
+            if not r.get("ok"):
+                continue
+            msgs = {sec: t["errors"] for sec, t in r["tables"].items() if t["errors"]}
+            inp = os.path.join(wd, cid + ".csv")
+            with open(inp, "w") as f:
+                f.write(gen.rows_to_csv(h["rows"], gen.used_cols(h["rows"])))
+            init = []
+            for a in gen.init_args(h.get("init", {})):
+                init += ["-b", a]
+            od = os.path.join(wd, cid + "-out")
+            rt = common.run_cli("acb", [inp] + init, home=wd)
+            rc = common.run_cli("acb", [inp, "-d", od] + init, home=wd)
+            V.bump("output_mode_runs", 3)
+            text_all = rt["out"].decode("utf-8", "replace") + rt["err"].decode("utf-8", "replace")
+            csv_all = rc["out"].decode("utf-8", "replace") + rc["err"].decode("utf-8", "replace")
+            if os.path.isdir(od):
+                for fn in os.listdir(od):
+                    with open(os.path.join(od, fn), errors="replace") as f:
+                        csv_all += f.read()
+            for sec, errs in msgs.items():
+                V.bump("rejections_followed_through_modes")
+                for e in errs:
+                    first_line = e.split("\n")[0]
+                    for mode, blob in (("text", text_all), ("--csv-output-dir", csv_all), ("library text writer", r.get("text", "") + r.get("text_stderr", ""))):
+                        if first_line not in blob:
+                            V.violation("rejection message of %s does not reach the user in %s mode: %r [%s]" % (sec, mode, first_line[:150], name),
+                                        {"kind": "history", "prop": "C04", "name": name, "history": h, "finding": {"what": "message lost", "mode": mode}},
+                                        {"what": "rejection message lost in an output mode", "mode": mode})
+            if msgs and rt["rc"] == 0 and False:
+                pass
+    finally:
+        common.cleanup(wd)
 
 
 def replay(rec):
